@@ -6,6 +6,8 @@ mkdir -p work evidence replays
 export CARGO_NET_OFFLINE=true
 export CARGO_TARGET_DIR="$(pwd)/work/target"
 (cd harness && cargo build --offline --release -p tfv)
+# plain-release twin (no debug assertions): second pass of C09 and C13
+(cd harness && cargo build --offline --profile plainrel -p tfv)
 
 # ThreadSanitizer build of the C24 probe (needs -Zbuild-std; slow when cold, incremental afterwards)
 (cd harness && cargo build --offline --release -p c24probe && \
